@@ -1,11 +1,11 @@
 SPECIFICATION Spec
 CONSTANTS
  NH = 2
- V = {1}
- Sizes = {0,2,7}
+ V = {1,2}
+ Sizes = {0,2,4,7}
  MaxLen = 4
  KeepHist = TRUE
- MaxOps = 6
+ MaxOps = 5
 VIEW View
 ACTION_CONSTRAINT Emit
 INVARIANTS TypeOK NoOrphan SomeLive
